@@ -218,6 +218,12 @@ Section StInd.
   Hypothesis Hor : forall a rs, P a -> Forall P rs -> P (SOr a rs).
   Hypothesis Hcond : forall c a b, P c -> P a -> P b -> P (SCond c a b).
   Hypothesis Hparen : forall a, P a -> P (SParen a).
+  Hypothesis Hlistt : forall es, Forall P es -> P (SLstT es).
+  Hypothesis Hmapt : forall kvs, Forall (fun kv => P (fst kv) /\ P (snd kv)) kvs -> P (SMapT kvs).
+  Hypothesis Hmsgt : forall lead names fields, Forall (fun nv => P (snd nv)) fields -> P (SMsgT lead names fields).
+  Hypothesis Hdotid : forall x, P (SDotId x).
+  Hypothesis Hdotcall : forall f args, Forall P args -> P (SDotCall f args).
+  Hypothesis Hselesc : forall a f, P a -> P (SSelEsc a f).
   Fixpoint st_ind' (t : st) : P t :=
     let many := (fix go (l : list st) : Forall P l :=
                    match l with [] => Forall_nil _ | r :: l' => Forall_cons _ (st_ind' r) (go l') end) in
@@ -254,6 +260,24 @@ Section StInd.
     | SOr a rs => Hor a rs (st_ind' a) (many rs)
     | SCond c a b => Hcond c a b (st_ind' c) (st_ind' a) (st_ind' b)
     | SParen a => Hparen a (st_ind' a)
+    | SLstT es => Hlistt es (many es)
+    | SMapT kvs => Hmapt kvs ((fix go (l : list (st * st)) : Forall (fun kv => P (fst kv) /\ P (snd kv)) l :=
+                                 match l with
+                                 | [] => Forall_nil _
+                                 | kv :: l' =>
+                                     Forall_cons kv (match kv as p return P (fst p) /\ P (snd p) with
+                                                     | (k, v) => conj (st_ind' k) (st_ind' v)
+                                                     end) (go l')
+                                 end) kvs)
+    | SMsgT lead names fields =>
+        Hmsgt lead names fields ((fix go (l : list (str * st)) : Forall (fun nv => P (snd nv)) l :=
+                                    match l with
+                                    | [] => Forall_nil _
+                                    | nv :: l' => Forall_cons nv (st_ind' (snd nv)) (go l')
+                                    end) fields)
+    | SDotId x => Hdotid x
+    | SDotCall f args => Hdotcall f args (many args)
+    | SSelEsc a f => Hselesc a f (st_ind' a)
     end.
 End StInd.
 
@@ -314,6 +338,7 @@ Proof.
     try (fold (tk_at 7 t1); apply hd_prim_app; exact IHt1).
   - apply lit_tk_start.
   - destruct lead; [reflexivity|]. destruct names as [|a [|b r]]; reflexivity.
+  - destruct lead; [reflexivity|]. destruct names as [|a [|b r]]; reflexivity.
 Qed.
 Lemma tk_hd l t : hd_expr (raw t) -> hd_expr (tk_at l t).
 Proof. unfold tk_at. destruct (l <=? prec t); [auto|]. intros _. cbn. auto. Qed.
@@ -331,6 +356,7 @@ Proof.
   - change (if 3 <=? prec t then raw t else TLParen :: raw t ++ [TRParen]) with (tk_at 3 t). apply hd_expr_app, tk_hd, IHt.
   - change (if 2 <=? prec t then raw t else TLParen :: raw t ++ [TRParen]) with (tk_at 2 t). apply hd_expr_app, tk_hd, IHt.
   - fold (tk_at 1 t1). apply hd_expr_app, tk_hd, IHt1.
+  - fold (tk_at 7 t). apply hd_expr_app, hd_prim_expr, tk7_prim.
 Qed.
 Lemma tk7_head t : plain_head (tk_at 7 t).
 Proof. pose proof (tk7_prim t) as H. destruct (tk_at 7 t) as [|t0 r]; [contradiction|]. destruct t0; try discriminate; exact I. Qed.
@@ -728,6 +754,117 @@ Proof.
       unfold fields_ast. cbn [map rev fst snd]. now rewrite <- !app_assoc.
 Qed.
 
+(** ** The optional trailing comma of list, map and message literals *)
+Lemma elems_trail_ok l : Forall Par l -> l <> [] -> forall acc R,
+  ev (fun f => p_elems f acc (commas l ++ TComma :: TRBracket :: R)) (POk (rev' (rev (map ast l) ++ acc)) R).
+Proof.
+  induction 1 as [|a l Ha Hl IH]; intros Hne acc R; [congruence|].
+  assert (Skip : forall f ts, (match ts with TRBracket :: _ | TQuestion :: _ => False | _ => True end) ->
+      p_elems (S f) acc ts = match p_expr f ts with
+        | POk a (TComma :: ts1) => p_elems f (a :: acc) ts1
+        | POk a (TRBracket :: ts1) => POk (rev' (a :: acc)) ts1
+        | POk _ _ => PFail | PFail => PFail | PFuel => PFuel end).
+  { intros f ts Hh. rewrite u_elems. destruct ts as [|t r]; [reflexivity|]. destruct t; try reflexivity; contradiction. }
+  assert (Hh : match commas (a :: l) ++ TComma :: TRBracket :: R with TRBracket :: _ | TQuestion :: _ => False | _ => True end).
+  { pose proof (hd_not_closer (commas (a :: l)) (TComma :: TRBracket :: R) (commas_hd a l)) as H0.
+    destruct (commas (a :: l) ++ TComma :: TRBracket :: R) as [|t r]; [exact I|]. destruct t; auto. }
+  cbn [commas] in *. destruct l as [|b l'].
+  - rewrite app_nil_r in *. destruct (Ha 0 ltac:(lia) (TComma :: TRBracket :: R) (stops0_closer TComma _ I)) as [n H].
+    rewrite (tk_raw 0 a) in H by lia. cbn [p_at] in H.
+    exists (S (S n)). intros [|[|f]] Hf; try lia. rewrite (Skip (S f) _ Hh), H by lia. rewrite u_elems. reflexivity.
+  - rewrite <- app_assoc in *. cbn [app] in *.
+    destruct (Ha 0 ltac:(lia) (TComma :: commas (b :: l') ++ TComma :: TRBracket :: R) (stops0_closer TComma _ I)) as [n1 H1].
+    rewrite (tk_raw 0 a) in H1 by lia. cbn [p_at] in H1.
+    destruct (IH ltac:(discriminate) (ast a :: acc) R) as [n2 H2].
+    exists (S (max n1 n2)). intros [|f] Hf; [lia|]. rewrite (Skip f _ Hh), H1 by lia. rewrite H2 by lia.
+    cbn [map rev]. now rewrite <- !app_assoc.
+Qed.
+
+Lemma entries_trail_ok l : Forall (fun kv => Par (fst kv) /\ Par (snd kv)) l -> l <> [] -> forall acc R,
+  ev (fun f => p_entries f acc (entries_tk l ++ TComma :: TRBrace :: R)) (POk (rev' (rev (entries_ast l) ++ acc)) R).
+Proof.
+  induction 1 as [|[k v] l [Hk Hv] Hl IH]; intros Hne acc R; [congruence|].
+  cbn [fst snd] in Hk, Hv.
+  assert (Skip : forall f ts, (match ts with TRBrace :: _ | TQuestion :: _ => False | _ => True end) ->
+      p_entries (S f) acc ts = match p_expr f ts with
+        | POk k (TColon :: ts1) =>
+            match p_expr f ts1 with
+            | POk v (TComma :: ts2) => p_entries f ((k, v) :: acc) ts2
+            | POk v (TRBrace :: ts2) => POk (rev' ((k, v) :: acc)) ts2
+            | POk _ _ => PFail | PFail => PFail | PFuel => PFuel end
+        | POk _ _ => PFail | PFail => PFail | PFuel => PFuel end).
+  { intros f ts Hh. rewrite u_entries. destruct ts as [|t r]; [reflexivity|]. destruct t; try reflexivity; contradiction. }
+  assert (Hh : match entries_tk ((k, v) :: l) ++ TComma :: TRBrace :: R with TRBrace :: _ | TQuestion :: _ => False | _ => True end).
+  { cbn [entries_tk]. rewrite <- app_assoc.
+    pose proof (hd_not_closer (raw k) (([TColon] ++ raw v ++ match l with [] => [] | _ :: _ => TComma :: entries_tk l end) ++ TComma :: TRBrace :: R) (raw_hd k)) as H0.
+    destruct (raw k ++ _) as [|t r]; [exact I|]. destruct t; auto. }
+  cbn [entries_tk] in *. rewrite <- !app_assoc in *. cbn [app] in *.
+  destruct l as [|kv l'].
+  - cbn [app] in *.
+    destruct (Hk 0 ltac:(lia) (TColon :: raw v ++ TComma :: TRBrace :: R) (stops0_closer TColon _ I)) as [n1 H1].
+    rewrite (tk_raw 0 k) in H1 by lia. cbn [p_at] in H1.
+    destruct (Hv 0 ltac:(lia) (TComma :: TRBrace :: R) (stops0_closer TComma _ I)) as [n2 H2].
+    rewrite (tk_raw 0 v) in H2 by lia. cbn [p_at] in H2.
+    exists (S (S (max n1 n2))). intros [|[|f]] Hf; try lia. rewrite (Skip (S f) _ Hh), H1 by lia. rewrite H2 by lia.
+    rewrite u_entries. reflexivity.
+  - cbn [app] in *.
+    destruct (Hk 0 ltac:(lia) (TColon :: raw v ++ TComma :: entries_tk (kv :: l') ++ TComma :: TRBrace :: R) (stops0_closer TColon _ I)) as [n1 H1].
+    rewrite (tk_raw 0 k) in H1 by lia. cbn [p_at] in H1.
+    destruct (Hv 0 ltac:(lia) (TComma :: entries_tk (kv :: l') ++ TComma :: TRBrace :: R) (stops0_closer TComma _ I)) as [n2 H2].
+    rewrite (tk_raw 0 v) in H2 by lia. cbn [p_at] in H2.
+    destruct (IH ltac:(discriminate) ((ast k, ast v) :: acc) R) as [n3 H3].
+    exists (S (max n1 (max n2 n3))). intros [|f] Hf; [lia|]. rewrite (Skip f _ Hh), H1 by lia. rewrite H2 by lia. rewrite H3 by lia.
+    unfold entries_ast. cbn [map rev fst snd]. now rewrite <- !app_assoc.
+Qed.
+
+Lemma fields_trail_ok l : Forall (fun nv => Par (snd nv)) l -> l <> [] -> forall acc R,
+  ev (fun f => p_fields f acc (fields_tk l ++ TComma :: TRBrace :: R)) (POk (rev' (rev (fields_ast l) ++ acc)) R).
+Proof.
+  induction 1 as [|[n v] l Hv Hl IH]; intros Hne acc R; [congruence|].
+  cbn [snd] in Hv. cbn [fields_tk]. destruct l as [|nv l'].
+  - rewrite app_nil_r. cbn [app].
+    destruct (Hv 0 ltac:(lia) (TComma :: TRBrace :: R) (stops0_closer TComma _ I)) as [n1 H1].
+    rewrite (tk_raw 0 v) in H1 by lia. cbn [p_at] in H1.
+    exists (S (S n1)). intros [|[|f]] Hf; try lia. rewrite u_fields, H1 by lia. rewrite u_fields. reflexivity.
+  - cbn [app]. rewrite <- app_assoc. cbn [app].
+    destruct (Hv 0 ltac:(lia) (TComma :: fields_tk (nv :: l') ++ TComma :: TRBrace :: R) (stops0_closer TComma _ I)) as [n1 H1].
+    rewrite (tk_raw 0 v) in H1 by lia. cbn [p_at] in H1.
+    destruct (IH ltac:(discriminate) ((n, ast v) :: acc) R) as [n2 H2].
+    exists (S (max n1 n2)). intros [|f] Hf; [lia|]. rewrite u_fields, H1 by lia. rewrite H2 by lia.
+    unfold fields_ast. cbn [map rev fst snd]. now rewrite <- !app_assoc.
+Qed.
+
+Lemma raw_listt es : raw (SLstT es) = [TLBracket] ++ commas es ++ [TComma; TRBracket].
+Proof. reflexivity. Qed.
+Lemma raw_mapt kvs : raw (SMapT kvs) = [TLBrace] ++ entries_tk kvs ++ [TComma; TRBrace].
+Proof. reflexivity. Qed.
+Lemma raw_msgt lead names fields :
+  raw (SMsgT lead names fields) = (if lead then [TDot] else []) ++ ids_tk names ++ [TLBrace] ++ fields_tk fields ++ [TComma; TRBrace].
+Proof. reflexivity. Qed.
+Lemma raw_dotcall g args : raw (SDotCall g args) = [TDot; TIdent g; TLParen] ++ commas args ++ [TRParen].
+Proof. reflexivity. Qed.
+Lemma ast_listt es : ast (SLstT es) = EList (map ast es).
+Proof. cbn [ast]. now rewrite ast_many. Qed.
+Lemma ast_mapt kvs : ast (SMapT kvs) = EMap (entries_ast kvs).
+Proof.
+  cbn [ast]. f_equal. unfold entries_ast. induction kvs as [|[k v] l IH]; [reflexivity|]. cbn [map fst snd]. now rewrite <- IH.
+Qed.
+Lemma ast_msgt lead names fields :
+  ast (SMsgT lead names fields) = EStruct (if lead then 46%N :: join_dots names else join_dots names) (fields_ast fields).
+Proof.
+  cbn [ast]. f_equal. unfold fields_ast. induction fields as [|[n v] l IH]; [reflexivity|]. cbn [map fst snd]. now rewrite <- IH.
+Qed.
+Lemma ast_dotcall g args : ast (SDotCall g args) = call_ast (46%N :: g) None (map ast args).
+Proof. cbn [ast]. now rewrite ast_many. Qed.
+
+Lemma prim_dotid_k f x R : postok R -> p_primary (S f) (TDot :: TIdent x :: R) = POk (EIdent x) R.
+Proof.
+  intros [Hm Hp]. rewrite u_primary. unfold ident_forms. rewrite Hm.
+  destruct R as [|t r]; [reflexivity|]. destruct t; try reflexivity; contradiction.
+Qed.
+Lemma msafe_selesc g R : msafe (TDot :: TEscIdent g :: R).
+Proof. intros [|[|fuel]] x acc; reflexivity. Qed.
+
 Lemma fields_tk_head l R : match fields_tk l ++ TRBrace :: R with TComma :: TRBrace :: _ => False | _ => True end.
 Proof. destruct l as [|[n v] l]; cbn; exact I. Qed.
 
@@ -1025,6 +1162,102 @@ Proof.
     rewrite (tk_raw 7 (SParen t)) by (cbn; lia). cbn [raw ast app] in *. rewrite <- app_assoc. cbn [app].
     apply (member_paren_k (raw t) (ast t) R X); [|exact HX].
     pose proof (Pa 0 ltac:(lia) (TRParen :: R)) as H0. rewrite (tk_raw 0 t) in H0 by lia. apply H0. cbn. auto.
+  - (* list literal with a trailing comma *)
+    assert (Pes : Forall Par es).
+    { induction H as [|r rs Hr _ IH]; [constructor|]. destruct W as [Wr Wrs].
+      constructor; [exact (proj1 (Hr Wr))|exact (IH Wrs)]. }
+    apply good_prim; [reflexivity|]. intros R X HR [n HX].
+    rewrite (tk_raw 7 (SLstT es)) by (cbn; lia). rewrite raw_listt, <- !app_assoc. cbn [app].
+    rewrite ast_listt in HX. destruct es as [|e0 es'].
+    + exists (S (S n)). intros [|[|f0]] Hf; try lia. cbn [commas app]. rewrite u_member, u_primary. apply HX. lia.
+    + destruct (elems_trail_ok (e0 :: es') Pes ltac:(discriminate) [] R) as [n1 H1].
+      exists (S (S (max n n1))). intros [|[|f0]] Hf; try lia. rewrite u_member, u_primary.
+      assert (E : match commas (e0 :: es') ++ TComma :: TRBracket :: R with
+                  | TComma :: TRBracket :: ts1 => POk (EList []) ts1
+                  | _ => match p_elems f0 [] (commas (e0 :: es') ++ TComma :: TRBracket :: R) with
+                         | POk es0 ts2 => POk (EList es0) ts2 | PFail => PFail | PFuel => PFuel end
+                  end = POk (EList (map ast (e0 :: es'))) R).
+      { rewrite H1 by lia. rewrite app_nil_r, rev'_rev, rev_involutive.
+        pose proof (hd_not_closer (commas (e0 :: es')) (TComma :: TRBracket :: R) (commas_hd e0 es')) as Hh.
+        destruct (commas (e0 :: es') ++ TComma :: TRBracket :: R) as [|t0 r]; [reflexivity|]. destruct t0; try reflexivity; contradiction. }
+      rewrite E. apply HX. lia.
+  - (* map literal with a trailing comma *)
+    assert (Pkvs : Forall (fun kv => Par (fst kv) /\ Par (snd kv)) kvs).
+    { induction H as [|[k v] l [Hk Hv] _ IH]; [constructor|]. destruct W as (Wk & Wv & Wl).
+      constructor; [split; [exact (proj1 (Hk Wk))|exact (proj1 (Hv Wv))]|exact (IH Wl)]. }
+    apply good_prim; [reflexivity|]. intros R X HR [n HX].
+    rewrite (tk_raw 7 (SMapT kvs)) by (cbn; lia). rewrite raw_mapt, <- !app_assoc. cbn [app].
+    rewrite ast_mapt in HX. destruct kvs as [|[k v] l].
+    + exists (S (S n)). intros [|[|f0]] Hf; try lia. cbn [entries_tk app]. rewrite u_member, u_primary. apply HX. lia.
+    + destruct (entries_trail_ok ((k, v) :: l) Pkvs ltac:(discriminate) [] R) as [n1 H1].
+      exists (S (S (max n n1))). intros [|[|f0]] Hf; try lia. rewrite u_member, u_primary.
+      assert (E : match entries_tk ((k, v) :: l) ++ TComma :: TRBrace :: R with
+                  | TComma :: TRBrace :: ts1 => POk (EMap []) ts1
+                  | _ => match p_entries f0 [] (entries_tk ((k, v) :: l) ++ TComma :: TRBrace :: R) with
+                         | POk es0 ts2 => POk (EMap es0) ts2 | PFail => PFail | PFuel => PFuel end
+                  end = POk (EMap (entries_ast ((k, v) :: l))) R).
+      { rewrite H1 by lia. rewrite app_nil_r, rev'_rev, rev_involutive.
+        cbn [entries_tk]. rewrite <- app_assoc.
+        pose proof (hd_not_closer (raw k) (([TColon] ++ raw v ++ match l with [] => [] | _ :: _ => TComma :: entries_tk l end) ++ TComma :: TRBrace :: R) (raw_hd k)) as Hh.
+        destruct (raw k ++ _) as [|t0 r]; [reflexivity|]. destruct t0; try reflexivity; contradiction. }
+      rewrite E. apply HX. lia.
+  - (* message literal with a trailing comma *)
+    destruct W as [Wn Wf].
+    assert (Pf : Forall (fun nv => Par (snd nv)) fields).
+    { clear Wn. induction H as [|[n v] l Hv _ IH]; [constructor|]. destruct Wf as [Wv Wl].
+      constructor; [exact (proj1 (Hv Wv))|exact (IH Wl)]. }
+    apply good_prim; [reflexivity|]. intros R X HR [n HX].
+    rewrite (tk_raw 7 (SMsgT lead names fields)) by (cbn; lia). rewrite raw_msgt, <- !app_assoc. cbn [app].
+    assert (Ex : exists n1, forall f0, n1 <= f0 -> forall b,
+                 ident_forms f0 b (ids_tk names ++ TLBrace :: fields_tk fields ++ TComma :: TRBrace :: R) =
+                 POk (EStruct (if b then 46%N :: join_dots names else join_dots names) (fields_ast fields)) R).
+    { assert (MP : msg_prefix (S (length (ids_tk names ++ TLBrace :: fields_tk fields ++ TComma :: TRBrace :: R)))
+                     (ids_tk names ++ TLBrace :: fields_tk fields ++ TComma :: TRBrace :: R) [] =
+                   Some (names, fields_tk fields ++ TComma :: TRBrace :: R)).
+      { rewrite (msg_prefix_ok names Wn _ [] (fields_tk fields ++ TComma :: TRBrace :: R))
+          by (rewrite app_length; assert (length names <= length (ids_tk names)); [|lia];
+              clear; induction names as [|a [|b0 r] IHn]; cbn [ids_tk length] in *; lia).
+        now rewrite app_nil_r, rev'_rev, rev_involutive. }
+      destruct fields as [|[n0 v0] fl].
+      - exists 0. intros f0 _ b. unfold ident_forms. rewrite MP. reflexivity.
+      - destruct (fields_trail_ok ((n0, v0) :: fl) Pf ltac:(discriminate) [] R) as [n1 H1].
+        exists n1. intros f0 Hf0 b. unfold ident_forms. rewrite MP.
+        set (ts1 := fields_tk ((n0, v0) :: fl) ++ TComma :: TRBrace :: R) in *.
+        assert (Hd : exists r', ts1 = TIdent n0 :: r') by (unfold ts1; cbn [fields_tk app]; eauto).
+        destruct Hd as [r' Hr]. clearbody ts1. subst ts1. cbv beta iota.
+        rewrite H1 by lia. now rewrite app_nil_r, rev'_rev, rev_involutive. }
+    destruct Ex as [n1 IF].
+    exists (S (S (max n n1))). intros [|[|f0]] Hf; try lia. rewrite u_member.
+    assert (E : p_primary (S f0) ((if lead then [TDot] else []) ++ ids_tk names ++ TLBrace :: fields_tk fields ++ TComma :: TRBrace :: R) =
+                POk (EStruct (if lead then 46%N :: join_dots names else join_dots names) (fields_ast fields)) R).
+    { rewrite u_primary. destruct lead; cbn [app].
+      - apply IF. lia.
+      - destruct names as [|a names']; [congruence|]. specialize (IF f0 ltac:(lia) false).
+        set (ts := ids_tk (a :: names') ++ TLBrace :: fields_tk fields ++ TComma :: TRBrace :: R) in *.
+        assert (Hd : exists r', ts = TIdent a :: r') by (unfold ts; destruct names'; cbn [ids_tk app]; eauto).
+        destruct Hd as [r' Hr]. clearbody ts. subst ts. exact IF. }
+    rewrite E. rewrite ast_msgt in HX. apply HX. lia.
+  - (* identifier with a leading dot *)
+    apply good_prim; [reflexivity|]. intros R X HR [n H].
+    exists (S (S n)). intros [|[|f]] Hf; try lia. rewrite (tk_raw 7 (SDotId x)) by (cbn; lia). cbn [raw app].
+    rewrite u_member, (prim_dotid_k f x R HR). apply H. lia.
+  - (* global call with a leading dot *)
+    destruct W as (Wm & Wargs).
+    assert (Pargs : Forall Par args).
+    { clear Wm. induction H as [|r rs Hr _ IH]; [constructor|]. destruct Wargs as [Wr Wrs].
+      constructor; [exact (proj1 (Hr Wr))|exact (IH Wrs)]. }
+    apply good_prim; [reflexivity|]. intros R X HR [n HX].
+    rewrite (tk_raw 7 (SDotCall f args)) by (cbn; lia). rewrite raw_dotcall, <- !app_assoc. cbn [app].
+    destruct (args_ok args Pargs R) as [n1 H1].
+    exists (S (S (max n n1))). intros [|[|f0]] Hf; try lia. rewrite u_member, u_primary. unfold ident_forms.
+    cbn [msg_prefix length]. rewrite H1 by lia.
+    rewrite mk_call_plain by exact Wm. rewrite ast_dotcall in HX. apply HX. lia.
+  - (* selection of a back-quoted field *)
+    destruct (IHt W) as (_ & _ & _ & _ & Ka).
+    apply good_prim; [reflexivity|]. intros R X [Rm Rp] [n H].
+    rewrite (tk_raw 7 (SSelEsc t f)) by (cbn; lia). cbn [raw]. fold (tk_at 7 t). rewrite <- app_assoc. cbn [app].
+    apply Ka; [split; [apply msafe_selesc|exact I]|].
+    exists (S n). intros [|f0] Hf; [lia|]. rewrite u_postfix. apply H. lia.
 Qed.
 
 (** ** The round trip: the rendering of a tree parses, with any sufficient fuel, to the tree's AST
